@@ -27,7 +27,7 @@ def xml_text(s):
 # ------------------------------------------------------------------------------------------
 # documents: nested  ('E', name, [(an, av)...], [kids]) | ('T', s) | ('C', s) | ('P', target, data)
 
-DOC_NS = {"p": "urn:p", "q": "urn:p"}          # two prefixes, one namespace, declared on the document element
+DOC_NS = {"p": "urn:p", "q": "urn:p", "xml": "http://www.w3.org/XML/1998/namespace"}          # two prefixes, one namespace, declared on the document element
 
 
 def uri_of(qname):
@@ -59,17 +59,24 @@ def doc_tokens(top):
     out = ["R - - 0 -"]
     n = [0]
 
-    def walk(node, parent):
+    def walk(node, parent, dflt=""):
         n[0] += 1
         me = n[0]
         k = node[0]
         if k == "E":
-            out.append("E %s - %d %s" % (enc(node[1]), parent, enc(uri_of(node[1]))))
+            # a default namespace declaration (written as the pseudo attribute "xmlns") is not an attribute node; it
+            # gives the unprefixed element names below it their namespace (never the attribute names)
             for an, av in node[2]:
+                if an == "xmlns":
+                    dflt = av
+            out.append("E %s - %d %s" % (enc(node[1]), parent, enc(uri_of(node[1]) if ":" in node[1] else dflt)))
+            for an, av in node[2]:
+                if an == "xmlns":
+                    continue
                 n[0] += 1
                 out.append("A %s %s %d %s" % (enc(an), enc(av), me, enc(uri_of(an))))
             for c in node[3]:
-                walk(c, me)
+                walk(c, me, dflt)
         elif k == "T":
             out.append("T - %s %d -" % (enc(node[1]), parent))
         elif k == "C":
@@ -174,6 +181,8 @@ def pattern_txt(p):
     """match-pattern syntax (abbreviated axes only)"""
     if p[0] == "root":
         return "/"
+    if p[0] == "fn":
+        return expr_txt(p)               # key('name', 'value') as the first step of a pattern
     _, base, ax, t, preds = p
     s = ("@" if ax == "attribute" else "") + test_txt(t) + "".join("[%s]" % expr_txt(q) for q in preds)
     if base[0] == "ctx":
@@ -251,9 +260,12 @@ def instr_xml(i):
         return "<%s%s>%s</%s>" % (i["name"], a, body_xml(i["body"]), i["name"])
     if k == "element":
         u = uses_of(i["body"])
-        return '<xsl:element name="%s"%s>%s</xsl:element>' % (xml_attr(avt_txt(i["name"])), ' use-attribute-sets="%s"' % u if u else "", body_xml(i["body"]))
+        ns = ' namespace="%s"' % xml_attr(avt_txt(i["ns"])) if i.get("ns") is not None else ""
+        return '<xsl:element name="%s"%s%s>%s</xsl:element>' % (xml_attr(avt_txt(i["name"])), ns, ' use-attribute-sets="%s"' % u if u else "", body_xml(i["body"]))
     if k == "attribute":
         ns = ' namespace=""' if i.get("nsempty") else ""
+        if i.get("ns") is not None:
+            ns = ' namespace="%s"' % xml_attr(avt_txt(i["ns"]))
         return '<xsl:attribute name="%s"%s>%s</xsl:attribute>' % (xml_attr(avt_txt(i["name"])), ns, body_xml(i["body"]))
     if k == "comment":
         return "<xsl:comment>%s</xsl:comment>" % body_xml(i["body"])
@@ -314,7 +326,11 @@ def instr_tok(i):
         a = " ".join("( %s %s )" % (enc(n), avt_tok(v)) for n, v in i["attrs"])
         return "( lre %s ( %s ) %s )" % (enc(i["name"]), a, body_tok(i["body"]))
     if k == "element":
+        if i.get("ns") is not None:
+            return "( elementNS %s %s %s )" % (avt_tok(i["name"]), avt_tok(i["ns"]), body_tok(i["body"]))
         return "( element %s %s )" % (avt_tok(i["name"]), body_tok(i["body"]))
+    if k == "attribute" and i.get("ns") is not None:
+        return "( attributeNS %s %s %s )" % (avt_tok(i["name"]), avt_tok(i["ns"]), body_tok(i["body"]))
     if k == "attribute":
         return "( %s %s %s )" % ("attributeN" if i.get("nsempty") else "attribute", avt_tok(i["name"]), body_tok(i["body"]))
     if k == "comment":
@@ -401,11 +417,16 @@ def stylesheet_modules(ss):
     out_all = []
     for k, m in enumerate(mods):
         out = XSL_OPEN
+        if ss.get("alias"):
+            # literal result elements / attributes written in urn:p come out in urn:q (XSLT 7.1.1)
+            out = out.replace(' version="1.0">', ' xmlns:q="urn:q" version="1.0">')
         out += "".join('<xsl:import href="i%d.xsl"/>' % j for j in m["imports"])
+        if k == 0 and ss.get("alias"):
+            out += '<xsl:namespace-alias stylesheet-prefix="p" result-prefix="q"/>'
         if k == 0:
             out += ('<xsl:strip-space elements="%s"/>' % " ".join(ss["strip"]) if ss.get("strip") else "")
-            out += "".join(key_xml(x) for x in ss.get("keys", []))
-            out += "".join(varlike_xml(g["k"], g) for g in ss["globals"])
+        out += "".join(key_xml(x) for x in ss.get("keys", []) if x.get("mod", 0) == k)
+        out += "".join(varlike_xml(g["k"], g) for g in ss["globals"] if g.get("mod", 0) == k)
         out += "".join(attrset_xml(a) for a in ss.get("attrsets", []) if a.get("mod", 0) == k)
         out += "".join(template_xml(t) for t in ss["templates"] if t.get("mod", 0) == k)
         out += "".join('<xsl:include href="i%d.xsl"/>' % j for j in m["includes"])
@@ -456,11 +477,13 @@ def stylesheet_xml(ss):
 
 
 def stylesheet_tok(ss):
-    return "( stylesheet ( %s ) ( %s ) ( %s ) ( %s ) ( %s ) )" % (" ".join(varlike_tok(g["k"], g) for g in ss["globals"]),
+    return "( stylesheet ( %s ) ( %s ) ( %s ) ( %s ) ( %s ) ( %s ) )" % (" ".join(varlike_tok(g["k"], g) for g in ss["globals"]),
                                                                   " ".join(template_tok(t) for t in ss["templates"]),
                                                                   " ".join(attrset_tok(a) for a in ss.get("attrsets", [])),
                                                                   " ".join(key_tok(k) for k in ss.get("keys", [])),
-                                                                  " ".join(enc(x) for x in ss.get("strip", [])))
+                                                                  " ".join(enc(x) for x in ss.get("strip", [])),
+                                                                  # xsl:namespace-alias as (stylesheet URI, result URI) pairs
+                                                                  " ".join("( %s %s )" % (enc(a), enc(b)) for a, b in ss.get("alias", [])))
 
 
 def request_line(cid, ss, doc_top, verb="xslt"):
@@ -485,6 +508,7 @@ class Gen:
     def __init__(self, r, size=2, fragment=False):
         self.r = r
         self.size = size          # 1 small, 2 medium, 3 large
+        self.narrow = fragment == "narrow"  # the sub-fragment core_refines_spec_total is proved for (no xsl:attribute / copy-of / comment / pi)
         self.fragment = fragment  # only the instruction kinds of the Core fragment (lean/XalanModel/C01/Core.lean)
         self.modes = []
         self.named = []           # names of named templates, in stylesheet order of "call level"
@@ -494,6 +518,7 @@ class Gen:
         self.sets = []
         self.keys = []
         self.ns = False           # namespaced names in the document and in the stylesheet (prefix p = urn:p)
+        self.xmlspace = False     # xml:space attributes and extra whitespace-only text in the document
         self.imports = 0
         self.nopos = False        # inside top-level variable selects: no position()/last() (evaluated lazily by the processor)
 
@@ -511,8 +536,15 @@ class Gen:
             for an in ANAMES:
                 if r.chance(1, 3):
                     attrs.append((an, r.choice(VALUES)))
-            # no namespaced attributes in the documents: copying such an attribute node to an element that does not
-            # declare its prefix yields an undeclared prefix in the processor (tagged corpus case, C14's subject)
+            if self.ns and r.chance(1, 4):
+                attrs.append((r.choice(["p:x", "q:x"]), r.choice(VALUES)))
+            if self.ns and depth > 0 and r.chance(1, 6):
+                # default namespace: the unprefixed elements from here down are in urn:d (or, nested, in none again)
+                attrs.append(("xmlns", r.choice(["urn:d", "urn:d", "urn:p", ""])))
+                self.features.add("doc-default-namespace")
+            if self.xmlspace and r.chance(1, 3):
+                # xml:space: "preserve" keeps whitespace-only text below it from xsl:strip-space, a nearer "default" cancels that
+                attrs.append(("xml:space", r.choice(["preserve", "preserve", "default"])))
             kids = []
             nk = (r.range(2, 4) if depth == 0 else r.range(0, 4)) if depth < 3 else 0
             last_text = False
@@ -523,7 +555,7 @@ class Gen:
                 if c == "T":
                     if last_text:
                         continue
-                    kids.append(("T", r.choice(TEXTS)))
+                    kids.append(("T", r.choice([" ", "  ", " \n"]) if (self.xmlspace and r.chance(1, 2)) else r.choice(TEXTS)))
                     last_text = True
                     budget[0] -= 1
                     continue
@@ -556,6 +588,8 @@ class Gen:
     def nametest(self, attr=False, inner=False, ax=None):
         r = self.r
         if attr:
+            if self.ns and r.chance(1, 4):
+                return ("name", "p:x")
             return r.weighted([(("name", r.choice(ANAMES)), 4), ("star", 1)])
         if False and ax in ROOT_REACHING:
             # element tests only: a node-set in which the document node is merged with other nodes is
@@ -814,6 +848,12 @@ class Gen:
                 res.append({"k": "foreach", "select": self.down_path(env, 1), "sorts": [], "body": self.text_body(env, depth - 1)})
         return res
 
+    def ns_avt(self):
+        """value of a namespace= attribute (XSLT 7.1.2 / 7.1.3): a literal URI, the empty string, or computed"""
+        r = self.r
+        return r.weighted([([("l", "urn:q")], 4), ([("l", "urn:p")], 3), ([("l", "")], 1),
+                           ([("l", "urn:"), ("e", ("fn", "name", []))], 2), ([("e", ("fn", "substring", [("lit", "urn:q"), ("num", 1), ("fn", "position", [])]))], 1)])
+
     def attr_instr(self, env, depth, late=False):
         r = self.r
         name = [("l", ("p:" if (self.ns and r.chance(1, 4)) else "") + r.choice(["k", "x", "id", "y"]))]
@@ -822,6 +862,9 @@ class Gen:
         i = {"k": "attribute", "name": name, "body": self.text_body(env, min(depth, 1))}
         if r.chance(1, 6):
             i["nsempty"] = True
+        elif not self.fragment and r.chance(1, 6):
+            i["ns"] = self.ns_avt()
+            self.features.add("attribute-namespace")
         self.features.add("attribute-late" if late else "attribute")
         return i
 
@@ -834,12 +877,12 @@ class Gen:
         if in_elem and sets_ok and self.sets and r.chance(1, 6):
             res.append({"k": "usesets", "names": r.shuffle(self.sets)[: r.range(1, len(self.sets))]})
             self.features.add("use-attribute-sets")
-        if in_elem:
+        if in_elem and not self.narrow:
             for _ in range(r.weighted([(0, 5), (1, 3), (2, 1)])):
                 res.append(self.attr_instr(env, depth))
         for _ in range(n):
             res.extend(self.gen_instr(env, depth, tctx))
-        if in_elem and r.chance(1, 12):
+        if in_elem and not self.narrow and r.chance(1, 12):
             res.append(self.attr_instr(env, depth, late=True))
         self.reexecute(res)
         return res
@@ -874,6 +917,8 @@ class Gen:
         if self.fragment:
             w = [(k, x) for k, x in w if k in ("text", "valueof", "lre", "apply", "call", "foreach", "if", "choose", "xtext",
                                                 "copyof", "comment", "pi")]
+            if self.narrow:
+                w = [(k, x) for k, x in w if k not in ("copyof", "comment", "pi")]
         k = r.weighted(w)
         self.features.add(k)
         if k == "applyimports":
@@ -920,7 +965,11 @@ class Gen:
             name = [("l", ("p:" if (self.ns and r.chance(1, 3)) else "") + r.choice(["el", "n", "g"]))]
             if r.chance(1, 3):
                 name.append(("e", r.choice([("fn", "position", []), ("fn", "count", [self.down_path(env, 0)])])))
-            return [{"k": "element", "name": name, "body": self.gen_body(env, depth - 1, tctx, in_elem=True)}]
+            el = {"k": "element", "name": name, "body": self.gen_body(env, depth - 1, tctx, in_elem=True)}
+            if r.chance(1, 3):
+                el["ns"] = self.ns_avt()
+                self.features.add("element-namespace")
+            return [el]
         if k == "copy":
             # no use-attribute-sets on xsl:copy: when the current node is not an element the processor runs the
             # sets after the content and the content a second time (tagged corpus case copy-usesets-on-root)
@@ -992,6 +1041,9 @@ class Gen:
         r = self.r
         c = r.weighted([("name", 6), ("star", 2), ("text", 2), ("attr", 2), ("two", 3), ("pred", 2), ("node", 1), ("root", 1), ("abs", 1), ("cpi", 1)])
         ctx = ("ctx",)
+        if self.keys and not getattr(self, "in_key_decl", False) and r.chance(1, 6):
+            kp = ("fn", "key", [("lit", "k0"), ("lit", r.choice(VALUES + ENAMES))])
+            return kp if r.chance(1, 2) else ("step", kp, "child", r.choice([("name", r.choice(ENAMES)), "star", "text"]), [])
         if c == "name":
             return ("step", ctx, "child", ("name", r.choice(ENAMES + ["r"])), [])
         if c == "star":
@@ -1075,6 +1127,7 @@ class Gen:
             for _ in range(r.range(1, 2)):
                 a = self.attr_instr(genv, 1)
                 a.pop("nsempty", None)
+                a.pop("ns", None)
                 body.append(a)
             attrsets.append({"name": name, "uses": list(self.sets) if self.sets and r.chance(1, 2) else [], "body": body})
             self.sets.append(name)
@@ -1146,9 +1199,35 @@ class Gen:
                         for _ in range(r.range(1, 2)):
                             x = self.attr_instr(genv, 1)
                             x.pop("nsempty", None)
+                            x.pop("ns", None)
                             body.append(x)
                         extra.append({"name": a["name"], "uses": [], "body": body, "mod": other, "prec": prec[other][0]})
             attrsets = attrsets + extra
+            # declarations in imported modules: a second xsl:key of the same name (the declarations are united), a lower
+            # precedence definition of a global variable and of a named template (the higher one must win)
+            if keys and r.chance(1, 2):
+                self.in_key_decl = True
+                keys.append({"name": "k0", "pats": [self.gen_pattern()], "use": r.choice([("ctx",), ("fn", "name", []),
+                             ("step", ("ctx",), "attribute", ("name", r.choice(ANAMES)), [])]), "mod": r.range(1, len(modules) - 1)})
+                self.in_key_decl = False
+            gdup = []
+            for g in globs:
+                if g["select"] is not None and g["select"][0] in ("lit", "num") and r.chance(1, 2):
+                    other = r.range(1, len(modules) - 1)
+                    if prec[other][0] < main_p:
+                        gdup.append({"k": "variable", "name": g["name"], "select": ("lit", "imported"), "body": [], "mod": other,
+                                     "prec": prec[other][0]})
+            for g in globs:
+                g.setdefault("prec", main_p)
+            globs = sorted(gdup, key=lambda g: g["prec"]) + globs
+            tdup = []
+            for t in templates:
+                if t["name"] is not None and not t["pats"] and r.chance(1, 2):
+                    other = r.range(1, len(modules) - 1)
+                    if prec[other][0] < main_p:
+                        tdup.append({"pats": [], "name": t["name"], "mode": None, "prio": None, "body": [{"k": "text", "s": "IMPORTED"}],
+                                     "mod": other, "prec": prec[other][0], "low": prec[other][1]})
+            templates = templates + tdup
             # Spec order = document order with imported modules first and included content last within its precedence
             included = set(j for m in modules for j in m["includes"])
             templates = sorted(templates, key=lambda t: (t["prec"], t["mod"] in included))
@@ -1156,8 +1235,15 @@ class Gen:
         strip = []
         if not self.fragment and r.chance(1, 4):
             strip = ["*"] if r.chance(1, 3) else r.shuffle(ENAMES + ["r"])[: r.range(1, 3)]
+        self.xmlspace = bool(strip) and r.chance(2, 3)
+        alias = []
+        if self.ns and not self.imports and r.chance(1, 2):
+            # only in single-module stylesheets: the processor applies an alias to the literal result elements of the
+            # declaring module alone, not to those of modules it imports (tagged corpus case namespace-alias-imported-module)
+            alias = [("urn:p", "urn:q")]
+            self.features.add("namespace-alias")
         return {"globals": globs, "templates": templates, "attrsets": attrsets, "keys": keys, "strip": strip,
-                "imports": self.imports, "modules": modules}
+                "imports": self.imports, "modules": modules, "alias": alias}
 
 
 def instr_kinds(ss):
@@ -1170,6 +1256,8 @@ def instr_kinds(ss):
             tag = k
             if k == "attribute" and i.get("nsempty"):
                 tag = "attribute[ns]"
+            if k in ("attribute", "element") and i.get("ns") is not None:
+                tag = k + "[namespace=]"
             if k == "copyof":
                 e = i["e"]
                 tag = "copyof[%s]" % ("var" if e[0] == "var" else "str" if e[0] in ("lit", "fn") else "ns")
